@@ -327,12 +327,18 @@ def rule_B4(ctx):
     # sbuf_extend: allocates exactly the recorded size and copies s_n bytes
     f = prog.func("sbuf_extend", file="sbuf.c")
     mal = list(f.calls("malloc"))
-    if mal and "s_sz" in key(mal[0]["args"][0]) and any(
-            lv_field(lv) and lv_field(lv)[1] == "s_sz" and key(strip_casts(rhs)) == f.params[1]["name"]
-            for n, lv, op, rhs in stores(f.body)):
-        ctx.ok("sbuf_extend", "allocation size = recorded size = requested size")
+    newsz = f.params[1]["name"]
+    sz_stores = [key(strip_casts(rhs)) for n, lv, op, rhs in stores(f.body)
+                 if lv_field(lv) and lv_field(lv)[1] == "s_sz" and rhs is not None]
+    if mal and sz_stores:
+        ak = key(strip_casts(mal[0]["args"][0]))
+        if all(k_ == newsz for k_ in sz_stores) and (ak == newsz or ak.endswith("->s_sz")):
+            ctx.ok("sbuf_extend", "allocation size = recorded size = requested size")
+        else:
+            ctx.violation("sbuf_extend", "recorded size",
+                          "s_sz is set to %s but malloc gets %s" % (sz_stores, ak), f.loc(mal[0]))
     else:
-        ctx.violation("sbuf_extend", "recorded size", "s_sz is not the allocated size")
+        ctx.inconclusive("sbuf_extend", "recorded size", "allocation / size store not recognised")
 
 
 def linearize_ren(l, ren):
